@@ -11,14 +11,16 @@ COQ_IMPORTS = "From CV Require Import Gen.NetTables Model.Net."
 COQ_RUN = "run_net"
 COQ_CASE_TYPE = "net_case"
 RULE = ("cases = operation histories (subscribe / unsubscribe one / unsubscribe all / add or replace a node object / "
-        "remove a node / add_sdo on a node object (registered or not; new, shared and colliding tx ids) / notify / "
+        "remove a node / add_sdo on a node object (registered or not; new, shared and colliding tx ids) / a second "
+        "associate_network of an attached node / connect - disconnect - connect of the bus / notify / "
         "listener frame incl. error+remote+extended / scanner reset) over a pool of ~14 CAN ids "
         "(node COB-IDs of 2-3 node ids in 1..127, extra SDO tx ids, 0, the LSS id, arbitrary 11- and 29-bit ids), 4 user callbacks and "
         "4-6 node objects (local and remote mixed, several objects per node id), 'clean' histories and 'dirty' ones that "
         "tamper with node subscriptions; compared step by step (delivery log of every callback, exception kind) plus the "
         "final subscribers / nodes / scanner state; scanner id lists (all 2048 11-bit ids, 29-bit ids, ids around every "
         "service boundary, negative and >29-bit); send_message / send_periodic frames (ids around 0x7FF, all 11-bit ids "
-        "through the oracle in the thorough tier, sampled 29-bit ids, remote, 0..8+ data bytes, no bus); "
+        "through the oracle in the thorough tier, sampled 29-bit ids, remote, 0..8+ data bytes, no bus); periodic tasks "
+        "followed by 1-4 update() calls (same / other payload and length, bus tasks with and without modify_data); "
         "non-trivial = a history with a subscription or node followed by a frame, a non-empty id list, any frame case; "
         "distinct by canonical JSON of the case")
 EXHAUSTIVE = {"quick": False, "thorough": False}
@@ -26,12 +28,14 @@ EXPLANATION = ("every tier feeds all 2048 11-bit ids to the scanner (model and o
                "frame on every 11-bit id (oracle only); histories and 29-bit ids are sampled")
 TRUSTED = ["modelled, not verified: python-can can.Message construction (a remote frame's payload is discarded, dlc = len(data)); "
            "Python dict insertion order and list.remove / in semantics (modelled as association lists, tied by correspondence)",
-           "node callbacks are observed through logging wrappers installed as instance attributes before "
-           "associate_network (so the library's own associate_network / remove_network code subscribes and unsubscribes them); "
-           "the wrapped originals (SdoClient.on_response, NmtMaster.on_heartbeat, ...) are not run; the clients created by "
-           "add_sdo are observed through a class-level wrapper of SdoClient.on_response (add_sdo subscribes the bound method "
-           "before the harness can touch the new object)"]
-ASSUMPTIONS = ["callbacks are identities in the model; Python bound-method equality is not modelled",
+           "node callbacks are the library's real bound methods, observed through class-level logging wrappers "
+           "(SdoClient.on_response, SdoServer.on_request, NmtMaster.on_heartbeat, NmtBase/NmtSlave.on_command, "
+           "EmcyConsumer.on_emcy) that log for instances tagged by the harness; the wrapped originals are not run for those",
+           "connect / disconnect use python-can's virtual interface and a real Notifier thread; no frame travels on that bus",
+           "the dlc of a periodic message after update() is compared with the model only, not judged by the oracle "
+           "(python-can keeps the construction-time dlc; notes/C10.md Round 3)"]
+ASSUMPTIONS = ["callbacks are identities in the model (the harness uses real bound methods, equal but not identical at every use, "
+               "for node callbacks and for even-numbered user callbacks, plain functions for odd-numbered ones)",
                "callbacks do not raise and do not modify subscriptions while being invoked",
                "timestamps are injected integers"]
 
@@ -43,7 +47,9 @@ ANCHORS = [("canopen.network", "Network.__init__"), ("canopen.network", "Network
            ("canopen.network", "MessageListener.on_message_received"),
            ("canopen.network", "NodeScanner.on_message_received"), ("canopen.network", "NodeScanner.reset"),
            ("canopen.network", "NodeScanner.SERVICES"),
-           ("canopen.network", "PeriodicMessageTask.__init__"),
+           ("canopen.network", "PeriodicMessageTask.__init__"), ("canopen.network", "PeriodicMessageTask.update"),
+           ("canopen.network", "PeriodicMessageTask._start"),
+           ("canopen.network", "Network.connect"), ("canopen.network", "Network.disconnect"),
            ("canopen.node.remote", "RemoteNode.__init__"), ("canopen.node.remote", "RemoteNode.associate_network"),
            ("canopen.node.remote", "RemoteNode.remove_network"), ("canopen.node.remote", "RemoteNode.add_sdo"),
            ("canopen.node.local", "LocalNode.associate_network"), ("canopen.node.local", "LocalNode.remove_network"),
